@@ -84,9 +84,7 @@ def check_type(value: Any, attr_type: Type) -> bool:
                         if not check_type(item, attr_type.__args__[i]):
                             return False
             elif attr_type.__origin__ == type:
-                if attr_type.__args__[0] is not Any and not issubclass(
-                    value, attr_type.__args__[0]
-                ):
+                if not _check_subclass(value, attr_type.__args__[0]):
                     return False
 
             return True
@@ -96,6 +94,21 @@ def check_type(value: Any, attr_type: Type) -> bool:
         )  # pragma: no cover; This is here as a fallback currently, just in case!
 
     return isinstance(value, attr_type)
+
+
+def _check_subclass(value: Type, class_type: Type) -> bool:
+    """
+    Check whether the class `value` satisfies `Type[class_type]`, where
+    `class_type` may be `Any`, a union of classes, or a subscripted generic
+    (of which only the origin can be checked at runtime).
+    """
+    if class_type is Any or isinstance(class_type, TypeVar):
+        return True
+    if getattr(class_type, "__origin__", None) is Union or (
+        sys.version_info >= (3, 10) and isinstance(class_type, types.UnionType)
+    ):
+        return any(_check_subclass(value, type_) for type_ in class_type.__args__)
+    return issubclass(value, getattr(class_type, "__origin__", class_type))
 
 
 def get_collection_item_type(container_type: Type) -> Type:
